@@ -1,61 +1,91 @@
 import CollectionsC.Model.Stack
 import CollectionsC.Proofs.ArrayIter
+import CollectionsC.Proofs.ArrayMem
 /-! Helper lemmas for the stack adapter: every stack function is the corresponding array function
 on `stack->v`; the constructor and `cc_stack_filter` add their own allocation logic. -/
 namespace CC.Stack
 open CC CC.Arr
 
-theorem free1 (m : Mem) (h : 0 < m.live) : m.free.live = m.live - 1 ∧ m.free.fault = m.fault := free_live m h
+/-- header and inner array share one allocator triple (what `cc_stack_new_conf` sets up) -/
+def Coh (s : Stack) : Prop := s.v.triple = s.triple
 
 /-- `cc_stack_new_conf`: the header is allocated first and released again when the inner array
-constructor fails (invalid capacity or refusal); on success the stack owns three blocks -/
-theorem new_spec (cap : Nat) (grow : Nat → Nat) (exGe : Nat → Bool) (m : Mem) :
-    (((Stack.new cap grow exGe m).1 = .errAlloc ∨ (Stack.new cap grow exGe m).1 = .errInvalidCapacity) ∧
-      (Stack.new cap grow exGe m).2.1 = none ∧
-      (Stack.new cap grow exGe m).2.2.live = m.live ∧ (Stack.new cap grow exGe m).2.2.fault = m.fault) ∨
-    ((Stack.new cap grow exGe m).1 = .ok ∧
-      ∃ s, (Stack.new cap grow exGe m).2.1 = some s ∧ s.abs = [] ∧ s.Inv ∧ s.v.capacity = cap ∧ s.v.grow = grow ∧
-        (Stack.new cap grow exGe m).2.2.live = m.live + 3 ∧ (Stack.new cap grow exGe m).2.2.fault = m.fault) := by
+constructor fails (invalid capacity or refusal); on success the stack owns three blocks of its triple -/
+theorem new_spec (cap : Nat) (grow : Nat → Nat) (exGe : Nat → Bool) (m : Mem) (t : Triple := .conf) :
+    (((Stack.new cap grow exGe m t).1 = .errAlloc ∨ (Stack.new cap grow exGe m t).1 = .errInvalidCapacity) ∧
+      (Stack.new cap grow exGe m t).2.1 = none ∧
+      own t (Stack.new cap grow exGe m t).2.2 = own t m ∧ (Stack.new cap grow exGe m t).2.2.fault = m.fault) ∨
+    ((Stack.new cap grow exGe m t).1 = .ok ∧
+      ∃ s, (Stack.new cap grow exGe m t).2.1 = some s ∧ s.abs = [] ∧ s.Inv ∧ s.v.capacity = cap ∧ s.v.grow = grow ∧
+        own t (Stack.new cap grow exGe m t).2.2 = own t m + 3 ∧ (Stack.new cap grow exGe m t).2.2.fault = m.fault) := by
   unfold Stack.new
-  rcases alloc_cases m with ⟨g1, g2, g3⟩ | ⟨g1, g2, g3⟩
-  · simp only [g1, Bool.not_true, Bool.false_eq_true, if_false]
-    rcases Arr.new_spec cap grow exGe m.alloc.2 with ⟨n1, n2, n3, _⟩ | ⟨n1, n2, _, _, n5, n6⟩ | ⟨n1, _, r, n3, n4, n5, n6, n7, n8, n9⟩
+  rcases allocT_cases m t with ⟨g1, _, g3⟩ | ⟨g1, _, g3⟩
+  · have o1 := own_allocT_ok m t g1
+    simp only [g1, Bool.not_true, Bool.false_eq_true, if_false]
+    rcases Arr.new_spec cap grow exGe (m.allocT t).2 t with ⟨n1, n2, n3, _⟩ | ⟨n1, n2, _, _, n5, n6⟩ | ⟨n1, _, r, n3, n4, n5, n6, n7, n8, n9⟩
     · left
-      have hf := free1 m.alloc.2 (by omega)
+      have hf := freeT_live (m.allocT t).2 t (by omega)
       rw [n2]
       simp only [n1, n3]
-      exact ⟨Or.inr (by triv), by triv, by rw [hf.1]; omega, by rw [hf.2]; exact g3⟩
+      exact ⟨Or.inr (by triv), by triv, by rw [hf.2.2]; omega, by rw [hf.2.1]; exact g3⟩
     · left
-      have hf := free1 (Arr.new cap grow exGe m.alloc.2).2.2 (by omega)
+      have hf := freeT_live (Arr.new cap grow exGe (m.allocT t).2 t).2.2 t (by omega)
       rw [n2]
       simp only [n1]
-      exact ⟨Or.inl (by triv), by triv, by rw [hf.1]; omega, by rw [hf.2, n6]; exact g3⟩
+      exact ⟨Or.inl (by triv), by triv, by rw [hf.2.2]; omega, by rw [hf.2.1, n6]; exact g3⟩
     · right
       rw [n3]
       simp only [n1, if_true]
-      exact ⟨by triv, ⟨r⟩, by triv, n4, n5, n6, n7, by omega, by rw [n9]; exact g3⟩
+      exact ⟨by triv, ⟨r, t⟩, by triv, n4, n5, n6, n7, by omega, by rw [n9]; exact g3⟩
   · left
+    have o1 := own_allocT_refused m t g1
     simp only [g1, Bool.not_false, if_true]
-    exact ⟨Or.inl (by triv), by triv, g2, g3⟩
+    exact ⟨Or.inl (by triv), by triv, o1, g3⟩
 
-theorem destroy_spec (s : Stack) (m : Mem) (hlive : 3 ≤ m.live) :
-    (s.destroy m).live = m.live - 3 ∧ (s.destroy m).fault = m.fault := by
+/-- the stack built by the constructor uses one triple for header and array, the one it was given -/
+theorem new_triple (cap : Nat) (grow : Nat → Nat) (exGe : Nat → Bool) (m : Mem) (t : Triple) (s : Stack)
+    (h : (Stack.new cap grow exGe m t).2.1 = some s) : s.triple = t ∧ s.v.triple = t := by
+  unfold Stack.new at h
+  simp only at h
+  split at h
+  · simp at h
+  · split at h
+    · rename_i a ha
+      split at h
+      · simp only [Option.some.injEq] at h
+        subst h
+        refine ⟨rfl, ?_⟩
+        simp only
+        unfold Arr.new at ha
+        simp only at ha
+        repeat' split at ha
+        all_goals first | (simp at ha; done) | skip
+        all_goals (simp only [Option.some.injEq] at ha; rw [← ha])
+      · simp at h
+    · simp at h
+
+theorem destroy_spec (s : Stack) (m : Mem) (hc : s.Coh) (hlive : 3 ≤ own s.triple m) :
+    own s.triple (s.destroy m) = own s.triple m - 3 ∧ (s.destroy m).fault = m.fault := by
   unfold destroy
-  obtain ⟨d1, d2⟩ := Arr.destroy_spec s.v m (by omega)
-  have hf := free1 (s.v.destroy m) (by omega)
-  exact ⟨by omega, by rw [hf.2, d2]⟩
+  unfold Coh at hc
+  obtain ⟨d1, d2⟩ := Arr.destroy_spec s.v m (by rw [hc]; omega)
+  rw [hc] at d1
+  have hf := freeT_live (s.v.destroy m) s.triple (by omega)
+  exact ⟨by rw [hf.2.2]; omega, by rw [hf.2.1, d2]⟩
 
-theorem destroyCb_spec (s : Stack) (m : Mem) (hinv : s.Inv) (hlive : 3 ≤ m.live) :
-    (s.destroyCb m).1 = s.abs ∧ (s.destroyCb m).2.live = m.live - 3 ∧ (s.destroyCb m).2.fault = m.fault := by
+theorem destroyCb_spec (s : Stack) (m : Mem) (hinv : s.Inv) (hc : s.Coh) (hlive : 3 ≤ own s.triple m) :
+    (s.destroyCb m).1 = s.abs ∧ own s.triple (s.destroyCb m).2 = own s.triple m - 3 ∧ (s.destroyCb m).2.fault = m.fault := by
   simp only [destroyCb]
-  obtain ⟨d0, d1, d2⟩ := Arr.destroyCb_spec s.v m hinv (by omega)
-  have hf := free1 (s.v.destroyCb m).2 (by omega)
-  exact ⟨d0, by omega, by rw [hf.2, d2]⟩
+  unfold Coh at hc
+  obtain ⟨d0, d1, d2⟩ := Arr.destroyCb_spec s.v m hinv (by rw [hc]; omega)
+  rw [hc] at d1
+  have hf := freeT_live (s.v.destroyCb m).2 s.triple (by omega)
+  exact ⟨d0, by rw [hf.2.2]; omega, by rw [hf.2.1, d2]⟩
 
 /-- the copying loop of `cc_stack_filter`: pushes the matching elements from position `it.index`
 on; stops with the failing status when a push is blocked -/
 theorem filterLoop_spec (p : Nat → Bool) (src : Arr) (hsrc : src.Inv) : ∀ n (it : ArrIter) (dst : Stack) (log : List Nat) (m : Mem),
-    it.index ≤ src.size → src.size - it.index < n → dst.Inv → 0 < m.live →
+    it.index ≤ src.size → src.size - it.index < n → dst.Inv →
     (((filterLoop p src n it dst log m).1 = .ok ∧
         (filterLoop p src n it dst log m).2.1.abs = dst.abs ++ (src.abs.drop it.index).filter p ∧
         (filterLoop p src n it dst log m).2.2.1 = log ++ src.abs.drop it.index) ∨
@@ -66,7 +96,7 @@ theorem filterLoop_spec (p : Nat → Bool) (src : Arr) (hsrc : src.Inv) : ∀ n 
   induction n with
   | zero => intro it dst log m h1 h2; omega
   | succ n ih =>
-    intro it dst log m h1 h2 hd hl
+    intro it dst log m h1 h2 hd
     have hbl := hsrc.size_le_len
     simp only [filterLoop]
     by_cases hend : it.index ≥ src.size
@@ -85,7 +115,7 @@ theorem filterLoop_spec (p : Nat → Bool) (src : Arr) (hsrc : src.Inv) : ∀ n 
       simp only [hnx, hne, if_false, Option.getD_some]
       by_cases hp : p (src.buf.get it.index) = true
       · simp only [hp, if_true]
-        obtain ⟨ad, al, af⟩ := add_spec dst.v (src.buf.get it.index) m hd hl
+        obtain ⟨ad, al, af⟩ := add_spec dst.v (src.buf.get it.index) m hd
         rcases ad with ⟨ok, habs, hgf⟩ | ⟨hb, hsame⟩
         · have hok : ((dst.push (src.buf.get it.index) m).1 != .ok) = false := by simp [push, ok]
           simp only [hok, Bool.false_eq_true, if_false]
@@ -93,7 +123,7 @@ theorem filterLoop_spec (p : Nat → Bool) (src : Arr) (hsrc : src.Inv) : ∀ n 
           have hgrow : (dst.push (src.buf.get it.index) m).2.1.v.grow = dst.v.grow := hgf.2.2.2.2
           have := ih { index := it.index + 1, lastRemoved := false } (dst.push (src.buf.get it.index) m).2.1
             (log ++ [src.buf.get it.index]) (dst.push (src.buf.get it.index) m).2.2 (by simp only; omega)
-            (by simp only; omega) hinv' (by simp only [push]; omega)
+            (by simp only; omega) hinv'
           obtain ⟨t1, t2, t3, t4, t5⟩ := this
           refine ⟨?_, t2, by rw [t3, hgrow], by rw [t4]; exact al, by rw [t5]; exact af⟩
           rcases t1 with ⟨u1, u2, u3⟩ | u
@@ -120,7 +150,7 @@ theorem filterLoop_spec (p : Nat → Bool) (src : Arr) (hsrc : src.Inv) : ∀ n 
       · have hpf : p (src.buf.get it.index) = false := by simpa using hp
         simp only [hpf, Bool.false_eq_true, if_false]
         have := ih { index := it.index + 1, lastRemoved := false } dst (log ++ [src.buf.get it.index]) m
-          (by simp only; omega) (by simp only; omega) hd hl
+          (by simp only; omega) (by simp only; omega) hd
         obtain ⟨t1, t2, t3, t4, t5⟩ := this
         refine ⟨?_, t2, t3, t4, t5⟩
         rcases t1 with ⟨u1, u2, u3⟩ | u
@@ -130,10 +160,40 @@ theorem filterLoop_spec (p : Nat → Bool) (src : Arr) (hsrc : src.Inv) : ∀ n 
           · rw [u3, hdrop]; simp
         · exact Or.inr u
 
-/-- `cc_stack_filter`: refuses the empty stack; otherwise builds a stack with the default
-configuration holding exactly the matching elements in the same (bottom-to-top) order, calling the
-predicate once per element; any refusal on the way (header, array, a growth step of the result)
-yields no object and a balanced ledger (Q3). -/
+/-- the loop keeps the result's block counter balanced and never changes its allocator triple -/
+theorem filterLoop_own (p : Nat → Bool) (src : Arr) : ∀ n (it : ArrIter) (dst : Stack) (log : List Nat) (m : Mem),
+    own dst.v.triple (filterLoop p src n it dst log m).2.2.2 = own dst.v.triple m ∧
+    (filterLoop p src n it dst log m).2.1.v.triple = dst.v.triple ∧
+    (filterLoop p src n it dst log m).2.1.triple = dst.triple := by
+  intro n
+  induction n with
+  | zero => intro it dst log m; exact ⟨rfl, rfl, rfl⟩
+  | succ n ih =>
+    intro it dst log m
+    have hm : own dst.v.triple (src.iterNext it m).2.2.2 = own dst.v.triple m := by
+      unfold Arr.iterNext; split
+      · rfl
+      · simp only [own_check]
+    simp only [filterLoop]
+    split
+    · exact ⟨hm, rfl, rfl⟩
+    · split
+      · have l := add_led dst.v ((src.iterNext it m).2.1.getD 0) (src.iterNext it m).2.2.2
+        have ht := add_triple dst.v ((src.iterNext it m).2.1.getD 0) (src.iterNext it m).2.2.2
+        split
+        · exact ⟨by simp only [push]; rw [l.1, hm]; rfl, ht, rfl⟩
+        · obtain ⟨i1, i2, i3⟩ := ih (src.iterNext it m).2.2.1 (dst.push ((src.iterNext it m).2.1.getD 0) (src.iterNext it m).2.2.2).2.1
+            (log ++ [(src.iterNext it m).2.1.getD 0]) (dst.push ((src.iterNext it m).2.1.getD 0) (src.iterNext it m).2.2.2).2.2
+          simp only [push] at i1 i2 i3 ⊢
+          rw [ht] at i1 i2
+          exact ⟨by rw [i1, l.1, hm]; rfl, i2, i3⟩
+      · obtain ⟨i1, i2, i3⟩ := ih (src.iterNext it m).2.2.1 dst (log ++ [(src.iterNext it m).2.1.getD 0]) (src.iterNext it m).2.2.2
+        exact ⟨by rw [i1, hm], i2, i3⟩
+
+/-- `cc_stack_filter`: refuses the empty stack; otherwise builds a stack with the default capacity
+and expansion factor and **the source's allocator triple**, holding exactly the matching elements in
+the same (bottom-to-top) order, calling the predicate once per element; any refusal on the way
+(header, array, a growth step of the result) yields no object and a balanced ledger (Q3). -/
 theorem filter_spec (p : Nat → Bool) (s : Stack) (dgrow : Nat → Nat) (dexGe : Nat → Bool) (m : Mem)
     (hinv : s.Inv) :
     ((s.filter p dgrow dexGe m).1 = .errOutOfRange ∧ s.abs = [] ∧ (s.filter p dgrow dexGe m).2.1 = none ∧
@@ -141,11 +201,11 @@ theorem filter_spec (p : Nat → Bool) (s : Stack) (dgrow : Nat → Nat) (dexGe 
     (((s.filter p dgrow dexGe m).1 = .errAlloc ∨ (s.filter p dgrow dexGe m).1 = .errMaxCapacity ∨
         (s.filter p dgrow dexGe m).1 = .errInvalidCapacity) ∧ s.abs ≠ [] ∧
       (s.filter p dgrow dexGe m).2.1 = none ∧
-      (s.filter p dgrow dexGe m).2.2.2.live = m.live ∧ (s.filter p dgrow dexGe m).2.2.2.fault = m.fault) ∨
+      own s.triple (s.filter p dgrow dexGe m).2.2.2 = own s.triple m ∧ (s.filter p dgrow dexGe m).2.2.2.fault = m.fault) ∨
     ((s.filter p dgrow dexGe m).1 = .ok ∧ s.abs ≠ [] ∧
       ∃ r, (s.filter p dgrow dexGe m).2.1 = some r ∧ r.abs = s.abs.filter p ∧ r.Inv ∧ r.v.grow = dgrow ∧
         (s.filter p dgrow dexGe m).2.2.1 = s.abs ∧
-        (s.filter p dgrow dexGe m).2.2.2.live = m.live + 3 ∧ (s.filter p dgrow dexGe m).2.2.2.fault = m.fault) := by
+        own s.triple (s.filter p dgrow dexGe m).2.2.2 = own s.triple m + 3 ∧ (s.filter p dgrow dexGe m).2.2.2.fault = m.fault) := by
   unfold filter
   by_cases h0 : s.size = 0
   · left
@@ -154,7 +214,7 @@ theorem filter_spec (p : Nat → Bool) (s : Stack) (dgrow : Nat → Nat) (dexGe 
   · right
     have hne : s.abs ≠ [] := fun h => h0 ((abs_eq_nil_iff s.v).1 h)
     simp only [h0, if_false]
-    rcases Stack.new_spec Gen.ARRAY_DEFAULT_CAPACITY dgrow dexGe m with ⟨n1, n2, n3, n4⟩ | ⟨n1, f, n2, n3, n4, n5, n6, n7, n8⟩
+    rcases Stack.new_spec Gen.ARRAY_DEFAULT_CAPACITY dgrow dexGe m s.triple with ⟨n1, n2, n3, n4⟩ | ⟨n1, f, n2, n3, n4, n5, n6, n7, n8⟩
     · left
       rw [n2]
       refine ⟨?_, hne, by triv, n3, n4⟩
@@ -162,29 +222,55 @@ theorem filter_spec (p : Nat → Bool) (s : Stack) (dgrow : Nat → Nat) (dexGe 
       · exact Or.inl n1
       · exact Or.inr (Or.inr n1)
     · rw [n2]
-      have hokb : ((Stack.new Gen.ARRAY_DEFAULT_CAPACITY dgrow dexGe m).1 != .ok) = false := by simp [n1]
+      obtain ⟨ft, fvt⟩ := new_triple _ _ _ _ _ f n2
+      have hokb : ((Stack.new Gen.ARRAY_DEFAULT_CAPACITY dgrow dexGe m s.triple).1 != .ok) = false := by simp [n1]
       simp only [hokb, Bool.false_eq_true, if_false]
-      have hl := filterLoop_spec p s.v hinv (s.v.size + 1) {} f [] (Stack.new Gen.ARRAY_DEFAULT_CAPACITY dgrow dexGe m).2.2
-        (Nat.zero_le _) (by simp only; omega) n4 (by omega)
+      have hl := filterLoop_spec p s.v hinv (s.v.size + 1) {} f [] (Stack.new Gen.ARRAY_DEFAULT_CAPACITY dgrow dexGe m s.triple).2.2
+        (Nat.zero_le _) (by simp only; omega) n4
+      obtain ⟨o1, o2, o3⟩ := filterLoop_own p s.v (s.v.size + 1) {} f [] (Stack.new Gen.ARRAY_DEFAULT_CAPACITY dgrow dexGe m s.triple).2.2
+      rw [fvt] at o1 o2
+      rw [ft] at o3
       obtain ⟨t1, t2, t3, t4, t5⟩ := hl
       rcases t1 with ⟨u1, u2, u3⟩ | u
       · right
-        have hokl : ((filterLoop p s.v (s.v.size + 1) {} f [] (Stack.new Gen.ARRAY_DEFAULT_CAPACITY dgrow dexGe m).2.2).1 != .ok) = false := by
+        have hokl : ((filterLoop p s.v (s.v.size + 1) {} f [] (Stack.new Gen.ARRAY_DEFAULT_CAPACITY dgrow dexGe m s.triple).2.2).1 != .ok) = false := by
           simp [u1]
         simp only [hokl, Bool.false_eq_true, if_false]
-        refine ⟨by triv, hne, _, by triv, ?_, t2, by rw [t3, n6], ?_, by rw [t4, n7], by rw [t5, n8]⟩
+        refine ⟨by triv, hne, _, by triv, ?_, t2, by rw [t3, n6], ?_, by rw [o1, n7], by rw [t5, n8]⟩
         · rw [u2, n3]; simp [Stack.abs]
         · rw [u3]; simp [Stack.abs]
       · left
-        have hokl : ((filterLoop p s.v (s.v.size + 1) {} f [] (Stack.new Gen.ARRAY_DEFAULT_CAPACITY dgrow dexGe m).2.2).1 != .ok) = true := by
+        have hokl : ((filterLoop p s.v (s.v.size + 1) {} f [] (Stack.new Gen.ARRAY_DEFAULT_CAPACITY dgrow dexGe m s.triple).2.2).1 != .ok) = true := by
           rcases u with u | u <;> rw [u] <;> decide
         simp only [hokl, if_true]
         obtain ⟨d1, d2⟩ := destroy_spec
-          (filterLoop p s.v (s.v.size + 1) {} f [] (Stack.new Gen.ARRAY_DEFAULT_CAPACITY dgrow dexGe m).2.2).2.1
-          (filterLoop p s.v (s.v.size + 1) {} f [] (Stack.new Gen.ARRAY_DEFAULT_CAPACITY dgrow dexGe m).2.2).2.2.2 (by omega)
-        refine ⟨?_, hne, by triv, by omega, by rw [d2, t5, n8]⟩
+          (filterLoop p s.v (s.v.size + 1) {} f [] (Stack.new Gen.ARRAY_DEFAULT_CAPACITY dgrow dexGe m s.triple).2.2).2.1
+          (filterLoop p s.v (s.v.size + 1) {} f [] (Stack.new Gen.ARRAY_DEFAULT_CAPACITY dgrow dexGe m s.triple).2.2).2.2.2
+          (by unfold Coh; rw [o2, o3]) (by rw [o3, o1]; omega)
+        rw [o3] at d1
+        refine ⟨?_, hne, by triv, by rw [d1, o1]; omega, by rw [d2, t5, n8]⟩
         rcases u with u | u
         · exact Or.inl u
         · exact Or.inr (Or.inl u)
+
+/-- the result of `cc_stack_filter` carries the source's allocator triple, for header and array -/
+theorem filter_triple (p : Nat → Bool) (s : Stack) (dgrow : Nat → Nat) (dexGe : Nat → Bool) (m : Mem) (r : Stack)
+    (h : (s.filter p dgrow dexGe m).2.1 = some r) : r.triple = s.triple ∧ r.v.triple = s.triple := by
+  unfold filter at h
+  split at h
+  · simp at h
+  · cases hn : (Stack.new Gen.ARRAY_DEFAULT_CAPACITY dgrow dexGe m s.triple).2.1 with
+    | none => simp [hn] at h
+    | some f =>
+      obtain ⟨ft, fvt⟩ := new_triple _ _ _ _ _ f hn
+      obtain ⟨_, o2, o3⟩ := filterLoop_own p s.v (s.v.size + 1) {} f [] (Stack.new Gen.ARRAY_DEFAULT_CAPACITY dgrow dexGe m s.triple).2.2
+      simp only [hn] at h
+      split at h
+      · simp at h
+      · split at h
+        · simp at h
+        · simp only [Option.some.injEq] at h
+          subst h
+          exact ⟨by rw [o3, ft], by rw [o2, fvt]⟩
 
 end CC.Stack
